@@ -66,7 +66,7 @@ Qed.
 Lemma sexec_length ops : forall s, length (sexec s ops) = length s.
 Proof.
   induction ops as [|o r IH]; intros s; [reflexivity|]. cbn [sexec]. rewrite IH.
-  destruct o as [i name len|i [j|]|i name nlen|i j|len|len|i name len|i name nlen|i|i j|i j|i total]; cbn [sstep].
+  destruct o as [i name len|i [j|]|i name nlen|i j|len|len|i name len|i name nlen|i|i j|i j|i total|i off len]; cbn [sstep].
   - destruct (nth_error s i); [|reflexivity]. destruct (sset a name len). apply length_set_nth.
   - destruct (nth_error s i); [|reflexivity]. destruct (nth_error s j); [apply length_set_nth|reflexivity].
   - destruct (nth_error s i); [apply length_set_nth|reflexivity].
@@ -81,6 +81,8 @@ Proof.
   - destruct (nth_error s i); [|reflexivity]. destruct (nth_error s j); [|reflexivity].
     destruct (i =? j); [reflexivity|apply length_set_nth].
   - destruct (nth_error s i); [apply length_set_nth|reflexivity].
+  - destruct (nth_error s i) as [a|]; [|reflexivity]. destruct (self_arg (snd a) off len) as [bs l].
+    destruct (sset a (Some bs) l). apply length_set_nth.
 Qed.
 
 (* an invariant world in which no identifier holds an allocated name has an empty heap *)
